@@ -1,3 +1,115 @@
-import HioModel.Memo.Model
+import HioModel.Memo.TxLemmas
+/-!
+# C21 — memo transmission loses no gram under transport backpressure
+
+Property theorems only.  Model: `HioModel/Memo/Model.lean` (`onceTx` = `Memoer._serviceOnceTxGrams`, `serviceTxGramsOnce`,
+`serviceTxGrams`, `runCalls` = any history of service calls and `gramit`s) of the tree at branch fix/memo
+(pre-findings F34 and F35 repaired).  The transport is a script: per `send` call `accept n | block | err errno`, an exhausted
+script accepts everything.  The unreachable-errno table `Gen.txDropErrnos` and the would-block tables of udp / uxd
+`Peer.send` are regenerated from the source on every run.
+
+SPEC (`after` / `replay`, in `TxLemmas.lean`): a log of send calls is a legal transmission of a list of held grams when every
+call offers exactly the whole unsent rest of the head gram to that gram's destination, accepted bytes are removed from its
+front, the gram is finished when nothing is left, and it is given up only when the call raised an errno of the unreachable
+table.  Hence: every gram is sent completely before the next one starts, in queue order, nothing lost, duplicated or reordered.
+-/
 namespace Hio.Memo
+
+/-- C21 safety, full strength: for EVERY initial state, transport script and history of calls (greedy / once / gramit) that
+ends without an escaped exception, the log of send calls is a legal transmission of the grams held at the start followed by
+the enqueued ones, and what remains is exactly what the Memoer still holds (remainder in `.txbs`, then `.txgs`). -/
+theorem tx_fifo_exact (cs : List Call) (st : Tx) (sc : List SendRes) (h : (runCalls cs st sc).escaped = none) :
+    replay (heldG st ++ enqOf cs) (runCalls cs st sc).evs = some (heldG (runCalls cs st sc).st) :=
+  runCalls_replay cs st sc h
+
+/-- byte level: accepted-or-given-up bytes in call order, followed by the bytes still held, are the bytes of the queued
+grams in queue order (tagged with their destination) -/
+theorem tx_conservation (cs : List Call) (st : Tx) (sc : List SendRes) (h : (runCalls cs st sc).escaped = none) :
+    wire (runCalls cs st sc).evs ++ flatT (heldG (runCalls cs st sc).st) = flatT (heldG st ++ enqOf cs) :=
+  replay_bytes _ _ _ (runCalls_replay cs st sc h)
+
+/-- … and therefore per destination -/
+theorem tx_conservation_per_dst (cs : List Call) (st : Tx) (sc : List SendRes) (d : Nat) (h : (runCalls cs st sc).escaped = none) :
+    (wire (runCalls cs st sc).evs).filter (fun p => p.1 == d) ++ (flatT (heldG (runCalls cs st sc).st)).filter (fun p => p.1 == d)
+      = (flatT (heldG st ++ enqOf cs)).filter (fun p => p.1 == d) := by
+  rw [← List.filter_append, tx_conservation cs st sc h]
+
+/-- a gram is dropped only when the transport reported an errno of the (regenerated) unreachable table -/
+theorem tx_drop_only_unreachable (cs : List Call) (st : Tx) (sc : List SendRes) (h : (runCalls cs st sc).escaped = none) :
+    ∀ e ∈ (runCalls cs st sc).evs, ∀ x, e.res = .err x → x ∈ Gen.txDropErrnos :=
+  replay_drop_errno _ _ _ (runCalls_replay cs st sc h)
+
+/-- the only exception that can escape transmit servicing is the transport's own OSError with an errno outside the table -/
+theorem tx_escape_only_unexpected_errno (cs : List Call) (st : Tx) (sc : List SendRes) (e : Exn)
+    (h : (runCalls cs st sc).escaped = some e) :
+    ∃ x, e = .osError x ∧ x ∉ Gen.txDropErrnos ∧ SendRes.err x ∈ sc :=
+  runCalls_escaped cs st sc e h
+
+/-- under partial accepts, would-block and unreachable errors nothing escapes -/
+theorem tx_no_escape (cs : List Call) (st : Tx) (sc : List SendRes) (hok : ScriptOk sc) : (runCalls cs st sc).escaped = none := by
+  cases he : (runCalls cs st sc).escaped with
+  | none => rfl
+  | some e =>
+    obtain ⟨x, _, h2, h3⟩ := runCalls_escaped cs st sc e he
+    exact absurd (hok x h3) h2
+
+/-- progress (F35): whenever something is pending — a queued gram OR a partial remainder — a service call, greedy or not,
+makes at least one send attempt -/
+theorem tx_progress (b : Bool) (st : Tx) (sc : List SendRes) (hp : st.pending = true) : (serviceCall b st sc).evs ≠ [] := by
+  cases b with
+  | true => exact loop_evs_of_pending _ st sc hp
+  | false => simp only [serviceCall, serviceTxGramsOnce, hp, if_true, Bool.false_eq_true, if_false]; exact once_evs_of_pending st sc hp
+
+/-- liveness: if the transport only ever accepts partially, blocks or reports unreachable, then after `|script| + 1` greedy
+service calls (i.e. once it accepts) nothing is pending and every gram held at the start was transmitted completely or
+given up on unreachable, in order -/
+theorem tx_liveness (st : Tx) (sc : List SendRes) (hok : ScriptOk sc) :
+    let r := runCalls (List.replicate (sc.length + 1) Call.greedy) st sc
+    r.escaped = none ∧ r.st.pending = false ∧ replay (heldG st) r.evs = some [] := by
+  intro r
+  obtain ⟨h1, h2⟩ := greedy_drains (sc.length + 1) st sc hok (Nat.lt_succ_self _)
+  refine ⟨h1, h2, ?_⟩
+  have h3 := runCalls_replay (List.replicate (sc.length + 1) Call.greedy) st sc h1
+  have henq : ∀ n, enqOf (List.replicate n Call.greedy) = [] := by
+    intro n; induction n with
+    | zero => rfl
+    | succ n ih => simp [List.replicate_succ, enqOf, ih]
+  rw [henq, List.append_nil] at h3
+  have hnil : heldG r.st = [] := by
+    have hp : r.st.pending = false := h2
+    unfold Tx.pending at hp
+    simp only [Bool.or_eq_false_iff, Bool.not_eq_false'] at hp
+    obtain ⟨ha, hb⟩ := hp
+    have h1 : r.st.txgs = [] := List.isEmpty_iff.mp ha
+    have h2 : r.st.txdst = none := by cases h : r.st.txdst <;> simp_all
+    simp [heldG, h1, h2]
+  rw [← hnil]; exact h3
+
+/-- the loop bound inside the model's `serviceTxGrams` is never the reason to stop: any larger fuel gives the same result -/
+theorem loopTx_fuel (f : Nat) (st : Tx) (sc : List SendRes) (hf : 2 * st.txgs.length + 2 ≤ f) :
+    loopTx f st sc = serviceTxGrams st sc :=
+  serviceTxGrams_fuel f st sc hf
+
+/-- regenerated tables: the errnos on which udp / uxd `Peer.send` returns 0 (would-block: EAGAIN, EWOULDBLOCK, ENOBUFS at least) are never
+treated as "unreachable" by the Memoer, so a would-block can never drop a gram -/
+theorem wouldblock_never_drops :
+    (∀ e ∈ Gen.udpSendZero ++ Gen.uxdSendZero, e ∉ Gen.txDropErrnos) ∧
+      Gen.eAGAIN ∈ Gen.udpSendZero ∧ Gen.eWOULDBLOCK ∈ Gen.udpSendZero ∧ Gen.eNOBUFS ∈ Gen.udpSendZero ∧
+      Gen.eAGAIN ∈ Gen.uxdSendZero ∧ Gen.eWOULDBLOCK ∈ Gen.uxdSendZero ∧ Gen.eNOBUFS ∈ Gen.uxdSendZero := by
+  decide
+
+/-! ### non-vacuity and concrete tests (bounded checks, not the unbounded claims) -/
+
+example : ScriptOk [.accept 3, .block, .err 111, .accept 0] := by
+  intro x hx
+  simp only [List.mem_cons, List.mem_nil_iff, or_false] at hx
+  rcases hx with h | h | h | h <;> first | cases h | skip
+  decide
+/-- test: the F34 history — would-block on a fresh gram, then partial, then everything — loses nothing -/
+example : (runCalls [.greedy, .greedy, .greedy] ⟨[([65, 65, 65], 1), ([66, 66], 1)], [], none⟩ [.block, .accept 2]).evs
+    = [⟨1, [65, 65, 65], .block⟩, ⟨1, [65, 65, 65], .accept 2⟩, ⟨1, [65], .accept 1⟩, ⟨1, [66, 66], .accept 2⟩] := by decide
+/-- test: F35 — the remainder is retried although the queue is empty -/
+example : (runCalls [.once, .once] ⟨[([65, 65, 65], 1)], [], none⟩ [.accept 2]).st = ⟨[], [], none⟩ := by decide
+example : (⟨[], [65], some 1⟩ : Tx).pending = true := by decide
+
 end Hio.Memo
